@@ -76,3 +76,13 @@ Proof.
   intros c ty id at' var H. unfold build_transform. destruct var; [congruence|reflexivity].
 Qed.
 Print Assumptions C19_sub_builders.
+
+(* the tie to the CURRENT source, regenerated by tools/srcfacts on every run: every constant of the Go code that the
+   model uses as a literal (EAP codes and types, AKA' attribute types, transform and selector types, header flag bits,
+   3GPP vendor id / notify types / EAP-5G ids) has the value the model uses *)
+From IKEGen Require Import SrcFacts AgreeBase AgreeConsts.
+From IKE Require Import Impl.Msg Impl.Security Spec.Modp Impl.Dh Impl.Registry.
+From Coq Require Import String ZArith. 
+Theorem C19_source_constants_are_the_models :
+  forallb (fun nv => match lookup (fst nv) src_consts with Some v => Z.eqb v (snd nv) | None => false end) model_consts = true.
+Proof. exact src_consts_agree. Qed.
